@@ -179,6 +179,8 @@ type Config struct {
 	SolverKind   string
 	TimeoutMs    int
 	Deadline     time.Time
+	NoFastPath   bool
+	CrossCheck   bool
 	WitnessMode  bool // treat verifReach as assert(false) to extract reachability witnesses
 	Log          func(string)
 }
@@ -217,6 +219,7 @@ type Report struct {
 	PanicEvents        map[string]int
 	Races              map[string]int
 	MaxPending         int
+	FastDecided        int64
 	UnlistedViolations int
 	KnownViolations    int
 	Witnesses          map[string]Violation
@@ -269,6 +272,8 @@ func Explore(p *Program, cfg Config) *Report {
 			}
 			ex.PreemptBoundDefault = cfg.PreemptBound
 			ex.WitnessMode = cfg.WitnessMode
+			ex.FastPath = !cfg.NoFastPath
+			ex.CrossCheck = cfg.CrossCheck
 			for _, id := range cfg.KnownIDs {
 				ex.knownIDs[id] = true
 			}
@@ -375,6 +380,7 @@ func Explore(p *Program, cfg Config) *Report {
 				rep.Funcs[name] += n
 				rep.FuncInstr[name] = p.info(f).nInstr
 			}
+			rep.FastDecided += ex.FastDecided
 			for name, n := range ex.intrinsicsSeen {
 				rep.Funcs["intrinsic:"+name] += n
 			}
